@@ -4,7 +4,7 @@
 # worktree and runs the given checks against it. Removes the worktree afterwards.
 set -u
 export GOFLAGS=-mod=mod GOPROXY=off GOSUMDB=off GOTOOLCHAIN=local
-id=$1; dir=$2; shift 2; checks="${*:-$id}"
+id=$1; dir=$(realpath $2); shift 2; checks="${*:-$id}"
 wt=$(mktemp -d /tmp/govc-seed-XXXXXX); rmdir $wt
 git -C /repo worktree add -q --detach $wt HEAD || exit 2
 pkgdir=$(grep -m1 -o 'plugins/[a-z/0-9_]*\|server\|config' $dir/seed_demo_test.go | head -1)
